@@ -295,3 +295,243 @@ pub fn types_to_sexp(types: &[TypeDecl]) -> String {
 pub fn program_to_sexp(p: &Program) -> String {
     format!("(prog {} {} {})", types_to_sexp(&p.types), expr_to_sexp(&p.types, &p.expr), ty_to_sexp(&p.ty))
 }
+
+// ------------------------------------------------------------------ reader (corpus / replay files)
+
+#[derive(Clone, Debug, PartialEq)]
+pub enum Sx {
+    Atom(String),
+    List(Vec<Sx>),
+}
+
+pub fn parse_sx(s: &str) -> Result<Sx, String> {
+    let b = s.as_bytes();
+    let mut pos = 0usize;
+    fn skip(b: &[u8], pos: &mut usize) {
+        while *pos < b.len() && (b[*pos] as char).is_ascii_whitespace() {
+            *pos += 1;
+        }
+    }
+    fn go(b: &[u8], pos: &mut usize) -> Result<Sx, String> {
+        skip(b, pos);
+        if *pos >= b.len() {
+            return Err("unexpected end".into());
+        }
+        if b[*pos] == b'(' {
+            *pos += 1;
+            let mut items = vec![];
+            loop {
+                skip(b, pos);
+                if *pos >= b.len() {
+                    return Err("missing )".into());
+                }
+                if b[*pos] == b')' {
+                    *pos += 1;
+                    return Ok(Sx::List(items));
+                }
+                items.push(go(b, pos)?);
+            }
+        }
+        if b[*pos] == b')' {
+            return Err("unexpected )".into());
+        }
+        let start = *pos;
+        while *pos < b.len() && !(b[*pos] as char).is_ascii_whitespace() && b[*pos] != b'(' && b[*pos] != b')' {
+            *pos += 1;
+        }
+        Ok(Sx::Atom(String::from_utf8_lossy(&b[start..*pos]).into_owned()))
+    }
+    let r = go(b, &mut pos)?;
+    skip(b, &mut pos);
+    if pos < b.len() {
+        return Err("trailing input".into());
+    }
+    Ok(r)
+}
+
+fn atom(x: &Sx) -> Result<&str, String> {
+    match x {
+        Sx::Atom(a) => Ok(a),
+        _ => Err("atom expected".into()),
+    }
+}
+fn items(x: &Sx) -> Result<&[Sx], String> {
+    match x {
+        Sx::List(l) => Ok(l),
+        _ => Err("list expected".into()),
+    }
+}
+fn head<'a>(x: &'a Sx) -> Result<(&'a str, &'a [Sx]), String> {
+    let l = items(x)?;
+    if l.is_empty() {
+        return Err("empty list".into());
+    }
+    Ok((atom(&l[0])?, &l[1..]))
+}
+fn bytes_str(xs: &[Sx]) -> Result<String, String> {
+    let mut v = vec![];
+    for x in xs {
+        v.push(atom(x)?.parse::<u8>().map_err(|e| e.to_string())?);
+    }
+    String::from_utf8(v).map_err(|e| e.to_string())
+}
+
+fn rd_lit(x: &Sx) -> Result<Lit, String> {
+    let (h, r) = head(x)?;
+    Ok(match h {
+        "int" => Lit::Int(atom(&r[0])?.parse().map_err(|_| "int")?),
+        "byte" => Lit::Byte(atom(&r[0])?.parse().map_err(|_| "byte")?),
+        "char" => Lit::Char(char::from_u32(atom(&r[0])?.parse().map_err(|_| "char")?).ok_or("char")?),
+        "str" => Lit::Str(bytes_str(r)?),
+        "f64" => Lit::Float(u64::from_str_radix(atom(&r[0])?, 16).map_err(|_| "f64")?),
+        _ => return Err(format!("literal {}", h)),
+    })
+}
+
+fn rd_ty(x: &Sx) -> Result<Ty, String> {
+    if let Sx::Atom(a) = x {
+        return Ok(match a.as_str() {
+            "int" => Ty::Int,
+            "byte" => Ty::Byte,
+            "char" => Ty::Char,
+            "str" => Ty::Str,
+            "float" => Ty::Float,
+            "bool" => Ty::Bool,
+            "unit" => Ty::Unit,
+            _ => return Err(format!("type {}", a)),
+        });
+    }
+    let (h, r) = head(x)?;
+    Ok(match h {
+        "fun" => Ty::Fun(items(&r[0])?.iter().map(rd_ty).collect::<Result<_, _>>()?, Box::new(rd_ty(&r[1])?)),
+        "trcd" => Ty::Record(
+            items(&r[0])?
+                .iter()
+                .map(|f| {
+                    let f = items(f)?;
+                    Ok((atom(&f[0])?.to_string(), rd_ty(&f[1])?))
+                })
+                .collect::<Result<_, String>>()?,
+        ),
+        "ttup" => Ty::Tuple(r.iter().map(rd_ty).collect::<Result<_, _>>()?),
+        "named" => Ty::Named(atom(&r[0])?.to_string(), r[1..].iter().map(rd_ty).collect::<Result<_, _>>()?),
+        "tarr" => Ty::Array(Box::new(rd_ty(&r[0])?)),
+        "tvar" => Ty::Var(atom(&r[0])?.to_string()),
+        _ => return Err(format!("type {}", h)),
+    })
+}
+
+fn rd_pat(x: &Sx) -> Result<Pat, String> {
+    let (h, r) = head(x)?;
+    Ok(match h {
+        "pwild" => Pat::Wild,
+        "pvar" => Pat::Var(atom(&r[0])?.to_string()),
+        "plit" => Pat::Lit(rd_lit(&r[0])?),
+        "pcon" => Pat::Con(atom(&r[0])?.to_string(), r[2..].iter().map(rd_pat).collect::<Result<_, _>>()?),
+        "prcd" => Pat::Record(
+            items(&r[0])?
+                .iter()
+                .map(|f| {
+                    let f = items(f)?;
+                    let l = atom(&f[0])?.to_string();
+                    let p = rd_pat(&f[1])?;
+                    // `(l (pvar l))` is the expansion of the punned field
+                    Ok(if p == Pat::Var(l.clone()) { (l, None) } else { (l, Some(p)) })
+                })
+                .collect::<Result<_, String>>()?,
+        ),
+        "ptup" => Pat::Tuple(r.iter().map(rd_pat).collect::<Result<_, _>>()?),
+        "pas" => Pat::As(atom(&r[0])?.to_string(), Box::new(rd_pat(&r[1])?)),
+        _ => return Err(format!("pattern {}", h)),
+    })
+}
+
+fn rd_fields(x: &Sx) -> Result<Vec<(Name, Expr)>, String> {
+    items(x)?
+        .iter()
+        .map(|f| {
+            let f = items(f)?;
+            Ok((atom(&f[0])?.to_string(), rd_expr(&f[1])?))
+        })
+        .collect()
+}
+
+fn rd_op(s: &str) -> Result<PrimOp, String> {
+    PrimOp::ALL.iter().copied().find(|o| o.atom() == s).ok_or_else(|| format!("primop {}", s))
+}
+
+pub fn rd_expr(x: &Sx) -> Result<Expr, String> {
+    let (h, r) = head(x)?;
+    let b = |i: usize| -> Result<Box<Expr>, String> { Ok(Box::new(rd_expr(r.get(i).ok_or("missing operand")?)?)) };
+    let names = |x: &Sx| -> Result<Vec<Name>, String> { items(x)?.iter().map(|a| Ok(atom(a)?.to_string())).collect() };
+    Ok(match h {
+        "int" | "byte" | "char" | "str" | "f64" => Expr::Lit(rd_lit(x)?),
+        "var" => Expr::Var(atom(&r[0])?.to_string()),
+        "lam" => Expr::Lam(names(&r[0])?, b(1)?),
+        "app" => Expr::App(b(0)?, r[1..].iter().map(rd_expr).collect::<Result<_, _>>()?),
+        "let" => Expr::Let(rd_pat(&r[0])?, b(1)?, b(2)?),
+        "rec" => Expr::Rec(
+            items(&r[0])?
+                .iter()
+                .map(|bd| {
+                    let bd = items(bd)?;
+                    Ok(RecBind { name: atom(&bd[0])?.to_string(), params: names(&bd[1])?, body: rd_expr(&bd[2])? })
+                })
+                .collect::<Result<_, String>>()?,
+            b(1)?,
+        ),
+        "if" => Expr::If(b(0)?, b(1)?, b(2)?),
+        "prim" => Expr::Prim(rd_op(atom(&r[0])?)?, b(1)?, b(2)?),
+        "and" => Expr::And(b(0)?, b(1)?),
+        "or" => Expr::Or(b(0)?, b(1)?),
+        "rcd" => Expr::Record(rd_fields(&r[0])?, None),
+        "rcdu" => Expr::Record(rd_fields(&r[0])?, Some(b(1)?)),
+        "proj" => Expr::Proj(b(0)?, atom(&r[1])?.to_string()),
+        "tup" => Expr::Tuple(r.iter().map(rd_expr).collect::<Result<_, _>>()?),
+        "con" => Expr::Con(atom(&r[0])?.to_string(), r[2..].iter().map(rd_expr).collect::<Result<_, _>>()?),
+        "arr" => Expr::Array(r.iter().map(rd_expr).collect::<Result<_, _>>()?),
+        "aidx" => Expr::ArrayIndex(b(0)?, b(1)?),
+        "alen" => Expr::ArrayLen(b(0)?),
+        "match" => Expr::Match(
+            b(0)?,
+            items(&r[1])?
+                .iter()
+                .map(|a| {
+                    let a = items(a)?;
+                    Ok((rd_pat(&a[0])?, rd_expr(&a[1])?))
+                })
+                .collect::<Result<_, String>>()?,
+        ),
+        "seq" => Expr::Seq(b(0)?, b(1)?),
+        "error" => Expr::Error(bytes_str(r)?),
+        "eff" => Expr::Eff(b(0)?),
+        "ann" => Expr::Ann(b(0)?, rd_ty(&r[1])?),
+        _ => return Err(format!("expression {}", h)),
+    })
+}
+
+/// Reads a line written by [`program_to_sexp`].
+pub fn parse_program(line: &str) -> Result<Program, String> {
+    let sx = parse_sx(line)?;
+    let (h, r) = head(&sx)?;
+    if h != "prog" || r.len() != 3 {
+        return Err("(prog (types …) expr type) expected".into());
+    }
+    let (th, decls) = head(&r[0])?;
+    if th != "types" {
+        return Err("(types …) expected".into());
+    }
+    let mut types = vec![];
+    for d in decls {
+        let d = items(d)?;
+        let name = atom(&d[0])?.to_string();
+        let params = items(&d[1])?.iter().map(|a| Ok(atom(a)?.to_string())).collect::<Result<Vec<_>, String>>()?;
+        let mut ctors = vec![];
+        for c in items(&d[2])? {
+            let c = items(c)?;
+            ctors.push((atom(&c[0])?.to_string(), c[2..].iter().map(rd_ty).collect::<Result<Vec<_>, _>>()?));
+        }
+        types.push(TypeDecl { name, params, ctors });
+    }
+    Ok(Program { types, expr: rd_expr(&r[1])?, ty: rd_ty(&r[2])? })
+}
